@@ -169,6 +169,17 @@ Theorem C12_local8181_effects_confined : forall rp cl q rp' out,
     local8181 rp cl q = (rp', out) -> confined8181 (cl_handle cl) rp rp' \/ rp' = rp.
 Proof. exact local8181_effects_confined. Qed.
 
+(** The publication shortcut in the same three-part form (candidate F12b: a CA of the instance that carries the
+    handle of a publisher registered with a different ID key is served as that publisher). *)
+Theorem C12_local8181_path_refuted : ~ local8181_acts_only_for_registered_key.
+Proof. exact local8181_path_refuted. Qed.
+
+Theorem C12_local8181_acts_only_when_handle_matches : forall rp cl q rp' out h,
+    publisher_handle_matches_registration rp cl ->
+    local8181 rp cl q = (rp', out) -> acted_for out = Some h ->
+    exists pb, aget h (r_pubs rp) = Some pb /\ pb_id pb = cl_id cl.
+Proof. exact local8181_acts_only_when_handle_matches. Qed.
+
 (** The validator used to evaluate observed cases satisfies the modelling assumption. *)
 Theorem C12_ideal_validate_sound : forall P, cms_sound (@ideal_validate P).
 Proof. exact @ideal_validate_sound. Qed.
@@ -198,4 +209,6 @@ Print Assumptions C12_local_effects_confined.
 Print Assumptions C12_local_checked_acts_only_for_registered_key.
 Print Assumptions C12_local8181_serves_own_handle.
 Print Assumptions C12_local8181_effects_confined.
+Print Assumptions C12_local8181_path_refuted.
+Print Assumptions C12_local8181_acts_only_when_handle_matches.
 Print Assumptions C12_ideal_validate_sound.
